@@ -406,11 +406,18 @@ type soupChunkReader struct {
 	i           int
 	eofWithData bool
 	zeros       int
+	// endErr, when set, is what the reader ends with instead of io.EOF (a source that
+	// fails: with eofWithData it arrives together with the last bytes)
+	endErr error
 }
 
 func (r *soupChunkReader) Read(p []byte) (int, error) {
+	end := error(io.EOF)
+	if r.endErr != nil {
+		end = r.endErr
+	}
 	if len(r.data) == 0 {
-		return 0, io.EOF
+		return 0, end
 	}
 	n := len(p)
 	if len(r.sizes) > 0 {
@@ -431,7 +438,7 @@ func (r *soupChunkReader) Read(p []byte) (int, error) {
 	copy(p, r.data[:n])
 	r.data = r.data[n:]
 	if len(r.data) == 0 && r.eofWithData {
-		return n, io.EOF
+		return n, end
 	}
 	return n, nil
 }
